@@ -109,13 +109,24 @@ def run_files(V, wd, files, tag, variant="san"):
     def tlc(ci):
         ev = []
         for tp in chunks[ci]:
-            ev += kv.read_trace(tp)
+            for e in kv.read_trace(tp):
+                ev.append(e)
+                if e.get("e") == "Note" and e.get("text", "").startswith("F") and e["text"][1:].isdigit() and "lines" in files[int(e["text"][1:])]:
+                    # the generator's file, for the line-level reader model
+                    ev.append(dict(e="File", id=e["text"], lines=files[int(e["text"][1:])]["lines"]))
         cp = os.path.join(fdir, "proto_%d.ndjson" % ci)
         kv.write_ndjson(cp, ev)
-        return ci, cp, kv.run_tlc("ProtoTrace", "ProtoTrace.cfg", fdir, trace=cp, timeout=1800, heap="3g", name="proto%d" % ci)
+        res = kv.run_tlc("ProtoTrace", "ProtoTrace.cfg", fdir, trace=cp, timeout=1800, heap="3g", name="proto%d" % ci)
+        res.reader = kv.run_tlc("ReaderTrace", "ReaderTrace.cfg", fdir, trace=cp, timeout=1800, heap="3g", name="reader%d" % ci)
+        return ci, cp, res
 
     for ci, cp, res in kv.pmap(tlc, range(len(chunks)), workers=10):
         V.add_tlc(res)
+        V.add_tlc(res.reader)
+        V.extra["files_matched_against_reader_model"] = V.extra.get("files_matched_against_reader_model", 0) + sum(1 for l in open(cp) if '"e":"File"' in l)
+        for (ln, fid, items) in res.reader.divs:
+            k = int(fid[1:]) if fid[1:].isdigit() else -1
+            V.divergence("reader model vs kalign_read_input, file of line kinds %s: %s" % (files[k].get("kinds") if k >= 0 else "?", ",".join(sorted(items))))
         for (ln, fid, items) in res.fails:
             k = int(fid[1:]) if fid[1:].isdigit() else -1
             f = files[k] if 0 <= k < len(files) else {}
